@@ -10,6 +10,9 @@ coq/gen/Gen_fmtbuf.v:
                                  add_fields has appended in place (concurrent record calls on one span are serialised)
     record_unwind_poisons : bool on_record runs the recorded value's Debug under the extensions write guard AND the registry
                                  unwraps the lock result (`.expect("Mutex poisoned")`): a caught panic there makes the span unusable
+    timer_fallback : bool        Format::format_timestamp prints "<unknown time>" when the timer returns Err (both the ANSI and the plain
+                                 branch) instead of bailing with `?`; Full, Compact and Pretty call it exactly once, first
+    json_timer_bails : bool      Format<Json>::format_event has `self.timer.format_time(..)?` (the record is dropped when the timer fails)
     gen_unrecognised : list string
 
 The model in Fmt/BufferModel.v hard-wires the rest of the protocol (thread-local `RefCell<String>`,
@@ -273,8 +276,48 @@ def analyse_on_record(repo):
 _POISONS = True
 
 
+def analyse_timer(repo):
+    unrec = []
+    mods = strip_comments(open(os.path.join(repo, FMOD)).read())
+    ft = None
+    for _, b_, _, _ in find_blocks(mods, r"impl<F, T> Format<F, T>[^{]*\{"):
+        f = fns_in(b_)
+        if "format_timestamp" in f and f["format_timestamp"][1] is not None:
+            ft = norm(f["format_timestamp"][1])
+    fallback = False
+    if ft is None:
+        unrec.append("Format::format_timestamp not found")
+    else:
+        n_fb = ft.count('if self.timer.format_time(writer).is_err() { writer.write_str("<unknown time>")?; }')
+        n_calls = ft.count("self.timer.format_time(")
+        if n_fb == n_calls and n_calls in (1, 2) and "format_time(writer)?" not in ft:
+            fallback = True
+        elif "self.timer.format_time(writer)?;" in ft and n_fb == 0:
+            fallback = False      # a recognised variant: the timer's error fails format_event as a whole
+        else:
+            unrec.append("format_timestamp: the timer call is neither guarded by the `<unknown time>` fallback everywhere nor `?` everywhere: `%s`" % ft[:160])
+        if not ft.startswith("if !self.display_timestamp { return Ok(()); }"):
+            unrec.append("format_timestamp does not start with the display_timestamp guard")
+    for nm, rx in (("Full", r"impl<C, N, T> FormatEvent<C, N> for Format<Full, T>[^{]*\{"), ("Compact", r"impl<C, N, T> FormatEvent<C, N> for Format<Compact, T>[^{]*\{")):
+        body = fn_body_in_impl(mods, rx, "format_event") or ""
+        if body.count("self.format_timestamp(&mut writer)?;") != 1 or "timer.format_time" in body:
+            unrec.append("Format<%s>::format_event does not call format_timestamp exactly once" % nm)
+    prs = strip_comments(open(os.path.join(repo, FPRETTY)).read())
+    body = fn_body_in_impl(prs, r"impl<C, N, T> FormatEvent<C, N> for Format<Pretty, T>[^{]*\{", "format_event") or ""
+    if body.count("self.format_timestamp(&mut writer)?;") != 1 or "timer.format_time" in body:
+        unrec.append("Format<Pretty>::format_event does not call format_timestamp exactly once")
+    js = strip_comments(open(os.path.join(repo, "tracing-subscriber/src/fmt/format/json.rs")).read())
+    jb = fn_body_in_impl(js, r"impl<C, N, T> FormatEvent<C, N> for Format<Json, T>[^{]*\{", "format_event") or ""
+    json_bails = "self.timer.format_time(&mut Writer::new(&mut timestamp))?;" in jb
+    if not json_bails and '"<unknown time>"' not in jb:
+        unrec.append("Format<Json>::format_event: the timer call is neither `?` nor guarded by a `<unknown time>` fallback")
+    return fallback, json_bails, unrec
+
+
 def main(repo, out):
     policy, unrec = analyse(repo)
+    t_fallback, json_bails, unrec_t = analyse_timer(repo)
+    unrec = unrec + unrec_t
     rec_atomic, unrec_r = analyse_on_record(repo)
     unrec = unrec + unrec_r
     both, unrec_w = analyse_writer(repo)
@@ -295,6 +338,10 @@ def main(repo, out):
         "",
         "(** %s on_record: the extensions write lock is held across read - append - store of the span's formatted fields. *)" % FILE,
         "Definition on_record_atomic : bool := %s." % ("true" if rec_atomic else "false"),
+        "",
+        "(** %s format_timestamp: a failing timer is replaced by <unknown time>, the record is kept. *)" % FMOD,
+        "Definition timer_fallback : bool := %s." % ("true" if t_fallback else "false"),
+        "Definition json_timer_bails : bool := %s." % ("true" if json_bails else "false"),
         "",
         "(** a caught panic of a recorded value's Debug impl poisons the span's extensions lock (std locks). *)",
         "Definition record_unwind_poisons : bool := %s." % ("true" if _POISONS else "false"),
